@@ -111,7 +111,7 @@ def apply_analysis(sess, op):
                 sess.fail("C17", "repeat-identical", "%s twice: %s vs %s" % (k, _short(a), _short(b)))
     # the system is unchanged: snapshot against the previous one and the shadow
     snap = sess.snapshot(sess.sut)
-    d = sess.snap_diff(sess.prev_snap, snap)
+    d = sess.snap_diff(sess.prev_snap, snap) if sess.prev_snap is not None else None
     if d:
         if "C17" in E:
             sess.fail("C17", "analysis-changed-state", "%s %s: %s" % (k, _opsum(op), d))
@@ -151,6 +151,8 @@ def apply_restart(sess, op):
     """save -> drop the object -> from_file -> continue on the reloaded object."""
     w, S = sess.w, sess.w.S
     sess.had_restart = True
+    if sess.prev_snap is None:
+        sess.prev_snap = sess.snapshot(sess.sut)
     before_snap = sess.prev_snap
     before_full = sess.full_obs(sess.sut) if "C12" in sess.enabled else None
     r = sess._guard(lambda: sess.sut.save("restart.json"))
@@ -207,6 +209,9 @@ def apply_restart(sess, op):
 def apply_observe(sess, op):
     """Full observation point: solve + clause checkers + twins."""
     E = sess.enabled
+    if sess.prev_snap is None:
+        sess.prev_snap = sess.snapshot(sess.sut)
+        sess.check_structure(sess.prev_snap)
     m = sess.model
     sut = sess.sut
     ta = op.get("ta", 25.0)
@@ -263,6 +268,14 @@ def apply_observe(sess, op):
         sess.stats["c03_%s_calls" % op["c03"]] += 1
         if op["c03"] in ("stress", "micro"):
             sess.nontrivial.add(("c03", op["c03"], outcome, bucket, over))
+    if ("C06" in E or "C16" in E) and table is not None and "phase" not in kw and m.phases_coherent():
+        if table.phases != m.phase_list():
+            sess.fail("C06" if "C06" in E else "C16", "reports-exactly-the-defined-phases", "table phases %s, defined phases %s" % (table.phases, m.phase_list()))
+    if "C06" in E:
+        for ph in sorted(getattr(sess, "dropped_phases", set()) - set(m.sys_phases)):
+            r3 = sess._guard(lambda: sut.solve(phase=ph))
+            if not (r3[0] == "exc" and r3[1] == "ValueError"):
+                sess.fail("C06", "unknown-phase-rejected", "solve(phase=%r) accepted although that phase is no longer defined -> %s" % (ph, _short(r3)))
     # phases: single-phase slice equals all-phase rows; unknown phase rejected
     if "C06" in E and table is not None and m.sys_phases and "phase" not in kw:
         for ph in list(m.sys_phases.keys()):
